@@ -66,7 +66,7 @@ typedef struct {
     int trace;
     int ndev;
     abtmc_dev dev[ABTMC_MAXDEV];
-    int bound[4]; /* indexed by budget kind */
+    int bound[5]; /* indexed by budget kind */
     long horizon;
     abtmc_xrec *xr;
     abtmc_centry *cache;
